@@ -97,8 +97,23 @@ FAULTS = {
     "koto_run_string": "q = koto.run 'throw \\'from run\\''",
     "koto_load_bad": "q = koto.load 'x = = 1'",
     "unpack_too_short": "f = |(a, b, c)| a\nq = f((1, 2))",
+    "import_failing_top": "import bad_top",
+    "import_failing_test": "from bad_test import x",
+    "import_failing_main": "import bad_main",
+    "import_failing_dependency": "from needs_bad import *",
+    "import_cycle": "import cyc_a",
+    "import_missing": "import no_such_module",
     "timeout": None,
     "compile_error": None,
+}
+MODULES = {
+    "bad_top.koto": "export x = 1\nthrow 'bad_top fails'\n",
+    "bad_test.koto": "export x = 1\n@test t = || throw 'bad_test fails'\n@main = || null\n",
+    "bad_main.koto": "export x = 1\n@test t = || null\n@main = || throw 'bad_main fails'\n",
+    "needs_bad.koto": "import good\nexport y = good.g\nimport bad_main\n",
+    "cyc_a.koto": "import cyc_b\nexport a = 1\n",
+    "cyc_b.koto": "import cyc_a\nexport b = 1\n",
+    "good.koto": "export g = 'good'\n@main = || null\n",
 }
 
 def gen_history(rng, length):
@@ -108,7 +123,7 @@ def gen_history(rng, length):
         r = rng.random()
         effects = "export e_%d = %d\nshared.push %d\n" % (i, i * 3, i)
         if r < 0.25:
-            src = effects + "print 'ok %d'\n%d\n" % (i, i)
+            src = effects + ("from good import g\nexport g_%d = g\n" % i if rng.random() < 0.3 else "") + "print 'ok %d'\n%d\n" % (i, i)
             ops.append({"op": "inst_run", "src": src, "kind": "run_ok"}); ref.append({"op": "inst_run", "src": src})
         elif r < 0.65:
             kind = rng.choice(sorted(FAULTS))
@@ -121,7 +136,8 @@ def gen_history(rng, length):
                 continue     # nothing ran: no effects
             else:
                 src = effects + FAULTS[kind] + "\nprint 'unreachable'\n"
-                ops.append({"op": "inst_run", "src": src, "kind": "fail:" + kind, "expect": "runtime_error"})
+                # a module that cannot be found is reported by the loader at run time, with the loader's (compile) error kind
+                ops.append({"op": "inst_run", "src": src, "kind": "fail:" + kind, "expect": "compile_error" if kind == "import_missing" else "runtime_error"})
             ref.append({"op": "inst_run", "src": effects + "0\n"})
         elif r < 0.8:
             k = rng.random()
@@ -163,6 +179,14 @@ def gen_history(rng, length):
 
 def _shard(shard, n, tier, seed, budget_s):
     w = Worker()
+    from kv.report import VERIF
+    import shutil
+    mod_dir = os.path.join(VERIF, "scratch", "c07", "%d_%d" % (os.getpid(), shard))
+    os.makedirs(mod_dir, exist_ok=True)
+    for name, text in MODULES.items():
+        open(os.path.join(mod_dir, name), "w").write(text)
+    script_path = os.path.join(mod_dir, "script.koto")
+    open(script_path, "w").write("# the scripts of the histories are sent as text; imports resolve relative to this file\n")
     t_end = time.time() + budget_s
     rep = {"violations": [], "evaluations": 0, "distinct": set(), "samples": [], "passenger": [], "histories": 0, "ops": 0, "failing_ops": 0, "op_kinds": {}, "residue_checks": 0, "probe_comparisons": 0}
     i = 0
@@ -181,6 +205,8 @@ def _shard(shard, n, tier, seed, budget_s):
             for k, op in enumerate(ops):
                 req = {x: y for x, y in op.items() if x not in ("kind", "expect", "expect_result")}
                 req["inst"] = "used"
+                if req["op"] == "inst_run":
+                    req["path"] = script_path
                 r = w.call(req, timeout=30)
                 rep["evaluations"] += 1
                 rep["ops"] += 1
@@ -212,6 +238,8 @@ def _shard(shard, n, tier, seed, budget_s):
             if not bad:
                 for op in ref:
                     req = dict(op); req["inst"] = "ref"
+                    if req["op"] == "inst_run":
+                        req["path"] = script_path
                     w.call(req, timeout=30)
                     rep["evaluations"] += 1
                 e1 = w.call({"op": "inst_exports", "inst": "used"}).get("exports")
